@@ -25,7 +25,7 @@ CHECKS = {
    technique="deterministic simulation with crash injection: the session's write log on a simulated disk is cut at every write boundary and byte offset (torn last write), each crash image is reopened, queried, continued and finalized; oracle from acknowledged/invoked sets and the reference codec",
    text="For each generated session every crash point (all boundaries; all bytes in thorough, structural bytes in quick) is enumerated, so within a session the crash dimension is covered completely; sessions (options, block mix, prior history) are sampled. After a successful resume the session is continued; one put of the continuation and the continuation's Finalize are themselves cut (boundaries and torn writes: a second crash) and resumed again. Twelve signatures of one defect (D3: a crash between index and header under ZeroLengthSectionAsEOF with an index over 1 KiB) are listed as known findings."),
  "C16": dict(engine="fault", cat="fault_enumeration", ref="4/C16",
-   technique="deterministic simulation with I/O fault injection: every write call of a session on the simulated disk/stream is failed once (0,err) and short-written (j,err) at every byte, the client carries on (optionally retrying), and the final image is compared with the reference encoding of exactly the acknowledged blocks",
+   technique="deterministic simulation with I/O fault injection: every write call of a session on the simulated disk/stream is failed once (0,err), short-written (j,err) at every byte and failed late (len,err), the client carries on (optionally retrying), and the final image is compared with the reference encoding of exactly the acknowledged blocks",
    text="For each generated session every single-fault plan is enumerated (plus sampled two-fault plans); sessions are sampled. The oracle is relaxed only as the property allows: after a fault the store may refuse to go on (then the archive clause is vacuous and counted separately), it may never report a failed block or return wrong bytes. Also: the outage that fails a write may fail the roll-back Truncate too; runs whose writes carry an already cancelled context; the deferred writer on a path. One known finding (D38: a failing EMPTY write together with a failing truncate leaves a complete section that a later reopen resurrects)."),
  "C02": dict(engine="medium", cat="fault_enumeration", ref="4/C02",
    technique="deterministic simulation with medium-fault injection: every truncation offset and bit flip of reference-built archives, delivered through simulated sources of every capability profile and chunking, read by each verifying reader (hash clause and truncation clause) and each scanning-only reader (SkipNext directly and over Reader.DataReader, Inspect(false), GenerateIndex, AllKeysChan of a store with a supplied index: truncation clause); harness-side rehash of every returned block",
@@ -45,7 +45,7 @@ CHECKS = {
    note="lock model with Go's writer preference (a waiting Lock excludes later RLocks); channel hand-offs of key listings are not scheduling points; race pass is sound but schedule-dependent; " + TRUST),
  "C09": dict(engine="medium", cat="exploration", ref="4/C09",
    technique="deterministic simulation with medium-fault injection (hostile length/offset/count fields, truncation, flips, extents, garbage, injected read errors) delivered through simulated sources to 21 parsing entry points; each case announced and run in a supervised child process; panic / process-death / non-termination / allocation-bound oracles; allocation site identified from the runtime's allocation profile",
-   text="No panic, no process death, termination within a source-call budget, and TotalAlloc within limits + 1024*len + 1 MiB for every generated case under small configured limits; exact-maximum acceptance and max+1 rejection on valid files, per constructor and per buffering lookup. Known findings: allocation sites inside dependencies (go-cid CidFromReader D16, refmt CBOR strings D18, two sites) and storage.StorageCar.Get not applying the section limit (D23).",
+   text="No panic, no process death, termination within a source-call budget, and TotalAlloc within limits + 1024*len + 1 MiB for every generated case under small configured limits; exact-maximum acceptance and max+1 rejection on valid files, per constructor and per buffering lookup, and refusal of everything when both limits are configured as 0. Known findings: allocation sites inside dependencies (go-cid CidFromReader D16, refmt CBOR strings D18) and storage.StorageCar.Get not applying the section limit (D23).",
    note="the constant of 'proportional to the input size' is chosen by the harness (1024/byte + 1 MiB); child processes run under ulimit -v 6 GiB; " + TRUST),
 }
 
